@@ -366,7 +366,9 @@ def run_real_loop(job, res, tmp):
 
 def run(job):
     res = Result()
-    tmp = tempfile.mkdtemp(prefix="vf-c14-")
+    # the real-thread / real-loop jobs want messages to arrive WHILE a save is in flight: their files go to the disk,
+    # where the fsync of every save takes its time
+    tmp = tempfile.mkdtemp(prefix="vf-c14-", dir=core.DISK_TMP if job["kind"] in ("real-threads", "real-loop") else None)
     try:
         if job["kind"] == "real-threads":
             run_real_threads(job, res, tmp)
@@ -404,7 +406,76 @@ def run(job):
                         res.count("last_change_cases")
                         judge(res, cfg, steps, out, name)
                         res.nontrivial((name, pat, ext, fl, v))
-            res.sample({"mode": "last-change", "version": v, "flavour": fl, "kinds": sorted(state_lines(v))})
+            # every presentation type and every value type on its own: whichever it is, a change that arrives after the
+            # last periodic save must be in the file after stop()
+            from .. import spec
+
+            sweep = [(f"presentation:{pt}", f"1;2;0;0;{pt};d{pt}") for pt in range(0, spec.MAX_PRES[v] + 1) if pt not in (17, 18)]
+            for vt in range(0, spec.MAX_SET[v] + 1):
+                rule = spec.rule_for(v, 1, vt)
+                good = next((p_ for p_, e in (spec.corpus(rule) if rule else []) if e is True and p_ != ""), None)
+                if rule == "ANY" or (rule and good is None):
+                    good = "7"
+                if good is not None:
+                    sweep.append((f"set:{vt}", f"1;1;1;0;{vt};{good}"))
+            for k, (name, line) in enumerate(sweep):
+                ext = ("json", "pickle")[k % 2]
+                cfg = {"version": v, "flavour": fl, "ext": ext, "callback": k % 3 != 0}
+                steps = prefix + [["tick"], ["in", line], ["stop"]]
+                out = run_one(cfg, steps, tmp)
+                res.evals += 1
+                res.count("last_change_cases")
+                res.count("last_change_sub_types_swept")
+                judge(res, cfg, steps, out, name.split(":")[0] + "-sweep")
+                res.nontrivial((name, "after-tick", ext, fl, v))
+            # a second gateway with a persistence file of its own in the same process saves between this gateway's last
+            # change and its stop()
+            from ..drive import projection, strict
+            from ..persist import PGateway
+
+            for name, line in state_lines(v).items():
+                for ext in ("json", "pickle"):
+                    for a_does in ("tick", "stop"):
+                        pa, pb = os.path.join(tmp, f"a{os.getpid()}.{ext}"), os.path.join(tmp, f"b{os.getpid()}.{ext}")
+                        A, B = PGateway(fl, v, pa), PGateway(fl, v, pb)
+                        case = {"cfg": {"version": v, "flavour": fl, "ext": ext}, "two_gateways": True, "line": line, "other_gateway_does": a_does}
+                        try:
+                            A.start()
+                            B.start()
+                            for g in (A, B):
+                                for st_ in prefix:
+                                    g.eng.feed(st_[1])
+                                g.tick()
+                            B.eng.feed(line)
+                            A.eng.feed("1;255;3;0;0;41")
+                            if a_does == "tick":
+                                A.tick()
+                            else:
+                                A.stop()
+                            before = strict(projection(B.gw.sensors))
+                            B.stop()
+                            B.close()
+                            B2 = PGateway(fl, v, pb)
+                            B2.start()
+                            after = strict(projection(B2.gw.sensors))
+                            B2.stop()
+                            B2.close()
+                            if a_does == "tick":
+                                A.stop()
+                            A.close()
+                        except Exception as exc:
+                            res.violation(f"stop-raises:{core.exc_sig(exc)}:two-gateways", f"two gateways with persistence in one process: {type(exc).__name__}: {exc}", case)
+                            continue
+                        finally:
+                            for f in os.listdir(tmp):
+                                os.remove(os.path.join(tmp, f))
+                        res.evals += 1
+                        res.count("two_gateway_cases")
+                        if before != after:
+                            res.violation(f"stop-loses:beside-another-gateway:{name}", f"gateway B handled {line!r} after its last periodic save, another gateway of the process "
+                                          f"then did its {a_does}; after B.stop() and a restart B's state differs from what it held", case)
+                        res.nontrivial((name, "two-gateways", a_does, ext, fl, v))
+            res.sample({"mode": "last-change", "version": v, "flavour": fl, "kinds": sorted(state_lines(v)), "sub_types_swept": len(sweep)})
             return res
         rng = core.rng_for(ID, job["seed"], job["i"])
         for h in range(job["n"]):
@@ -445,7 +516,7 @@ def run(job):
 
 def replay(case):
     res = Result()
-    tmp = tempfile.mkdtemp(prefix="vf-c14-")
+    tmp = tempfile.mkdtemp(prefix="vf-c14-", dir=core.DISK_TMP if case.get("real_loop") or case.get("real_threads") else None)
     try:
         if case.get("real_loop"):
             for k in range(3):
@@ -454,6 +525,12 @@ def replay(case):
         if case.get("real_threads"):
             for k in range(3):      # real threads: not replayable bit for bit, the same workload is run three times
                 run_real_threads({"seed": case["seed"], "version": case["version"], "ext": case["ext"], "stop_in_callback": case.get("stop_in_callback", False)}, res, tmp)
+            return res
+        if case.get("two_gateways"):
+            r = run({"kind": "last-change", "version": case["cfg"]["version"], "flavour": case["cfg"]["flavour"]})
+            for v_ in r.violations:
+                if "two-gateways" in v_["sig"] or "beside-another-gateway" in v_["sig"]:
+                    res.violation(v_["sig"], v_["what"], v_["case"])
             return res
         out = run_one(case["cfg"], case["steps"], tmp)
         judge(res, case["cfg"], case["steps"], out, "replay")
@@ -467,7 +544,9 @@ def finish(agg, tier):
     return {
         "rule": "(a) bounded-exhaustive: every handler kind that changes persisted state (node/child presentation, set, battery, "
                 "sketch name/version, heartbeat, id request, re-presentation) as the last change before stop(), with 0/1/2 save "
-                "ticks before it or one after it, x format x flavour x version; (b) random lock-step histories with ticks and "
+                "ticks before it or one after it, x format x flavour x version; every presentation type and every value type of the version on its own as the "
+                "only change after the last periodic save; each handler kind again while a second gateway of the process, with a persistence file of its own, "
+                "does a periodic save or its stop() between the change and this gateway's stop(); (b) random lock-step histories with ticks and "
                 "restarts at arbitrary positions ended by the real stop(); in a quarter of them the device sends one more state-changing "
                 "line while stop() runs (right after a save completes, delivered only if the transport is still open), and in another quarter (threaded flavour) "
                 "stop() is called while a periodic save is in flight in the timer thread (it has serialised the state and waits in fsync; "
@@ -478,7 +557,8 @@ def finish(agg, tier):
                 "stop() == projection of a fresh gateway after start_persistence() on the same file. distinct = (last "
                 "state-changing kind, tick pattern, format, flavour, version/history).",
         "floors": [("stops_judged", c.get("stops_judged", 0), 2000), ("last_change_cases", c.get("last_change_cases", 0), 600),
-                   ("ticks", c.get("ticks", 0), 1500), ("stops_with_a_late_line", c.get("stops_with_a_late_line", 0), 150),
+                   ("ticks", c.get("ticks", 0), 1500), ("last_change_sub_types_swept", c.get("last_change_sub_types_swept", 0), 500),
+                   ("two_gateway_cases", c.get("two_gateway_cases", 0), 300), ("stops_with_a_late_line", c.get("stops_with_a_late_line", 0), 150),
                    ("stops_during_a_tick", c.get("stops_during_a_tick", 0), 100),
                    ("real_thread_runs", c.get("real_thread_runs", 0), 6),
                    ("real_thread_messages_handled_during_a_save", c.get("real_thread_messages_handled_during_a_save", 0), 50),
